@@ -269,6 +269,11 @@ class WebpageUnavailablePenalty(AbstractReward, discriminator="webpage-unavailab
         if not request_attempted and self.config.sticky:
             return self.reward
 
+        # a non-sticky component is back at zero on every step without a webpage request
+        if not request_attempted:
+            self.reward = 0.0
+            return self.reward
+
         if last_action_response.response.status != "success":
             self.reward = -1.0
         elif web_browser_state is NOT_PRESENT_IN_STATE or not web_browser_state["history"]:
